@@ -147,10 +147,11 @@ type c09Pose struct {
 	Height          int // 1-D bar height in modules
 	Present         int // how the image is handed to the reader (zz_c09_present.go): concrete type, SubImage of a sheet, shifted origin
 	Dx, Dy          int // origin of the shifted presentations
+	Extra           int // 1-D: further decode hints on top of TRY_HARDER (0 none, 1 result-point callback, 2 callback + a reader-specific hint)
 }
 
 func (p c09Pose) String() string {
-	return fmt.Sprintf("pad=%d scale=%d rot=%d mirror=%v tryharder=%v h=%d image=%s origin=(%d,%d)", p.Pad, p.Scale, p.Rot*90, p.Mirror, p.TryHarder, p.Height, c09PresentNames[p.Present], p.Dx, p.Dy)
+	return fmt.Sprintf("pad=%d scale=%d rot=%d mirror=%v tryharder=%v h=%d image=%s origin=(%d,%d) extra-hints=%d", p.Pad, p.Scale, p.Rot*90, p.Mirror, p.TryHarder, p.Height, c09PresentNames[p.Present], p.Dx, p.Dy, p.Extra)
 }
 
 // c09Render: the writer's own minimal output (its default quiet zone included), then the pose.
@@ -202,6 +203,24 @@ func c09Decode(s *c09Sym, g image.Image, p c09Pose) c09Read {
 		var hints map[gozxing.DecodeHintType]interface{}
 		if p.TryHarder {
 			hints = map[gozxing.DecodeHintType]interface{}{gozxing.DecodeHintType_TRY_HARDER: true}
+		}
+		if p.Extra > 0 && s.OneD {
+			if hints == nil {
+				hints = map[gozxing.DecodeHintType]interface{}{}
+			}
+			hints[gozxing.DecodeHintType_NEED_RESULT_POINT_CALLBACK] = gozxing.ResultPointCallback(func(gozxing.ResultPoint) {})
+			if p.Extra > 1 {
+				switch s.Format {
+				case gozxing.BarcodeFormat_CODABAR:
+					hints[gozxing.DecodeHintType_RETURN_CODABAR_START_END] = true
+				case gozxing.BarcodeFormat_ITF:
+					hints[gozxing.DecodeHintType_ALLOWED_LENGTHS] = []int{2, 4, 6, 8, 10, 12, 14, 16, 18, 20, 22, 24, 26, 28, 30, 32, 34, 36, 38, 40, 42, 44}
+				case gozxing.BarcodeFormat_CODE_128:
+					hints[gozxing.DecodeHintType_ASSUME_GS1] = true
+				case gozxing.BarcodeFormat_EAN_13, gozxing.BarcodeFormat_EAN_8, gozxing.BarcodeFormat_UPC_A, gozxing.BarcodeFormat_UPC_E:
+					hints[gozxing.DecodeHintType_ALLOWED_EAN_EXTENSIONS] = []int{}
+				}
+			}
 		}
 		if s.Format == gozxing.BarcodeFormat_QR_CODE && p.Mirror {
 			// the mirrored flag does not reach gozxing.Result; observe it where the reader observes it:
@@ -267,6 +286,9 @@ func c09Poses(r *Rng, s *c09Sym, n int) []c09Pose {
 				p.Pad = 60
 			}
 			p.Height = r.Pick([]int{16, 30, 50})
+		}
+		if s.OneD && i%3 == 2 {
+			p.Extra = 1 + r.Intn(2)
 		}
 		if s.OneD {
 			p.TryHarder = (i/4)%2 == 1 || p.Rot%2 == 1 && r.Chance(0.7)
@@ -392,6 +414,35 @@ func runC09(c *Ctx) {
 				c.Note("image-presented-as:" + c09PresentNames[p.Present])
 			}
 			rd := c09Decode(s, img, p)
+			if p.Extra > 0 {
+				// hints that may change WHAT is returned (start/stop characters, GS1 prefix ...): the statement about such a call
+				// is pose invariance — whatever the upright picture reads as under these hints, the turned picture reads the same
+				// or is a reader exception; a retry pass that loses or rewrites the caller's hints shows here
+				p0 := p
+				p0.Rot, p0.Present = 0, 0
+				if g0, e0 := c09Render(s, j.content, p0); e0 == nil {
+					rd0 := c09Decode(s, g0, p0)
+					c.Note(fmt.Sprintf("%s:extra-hints-%d:rot%d:%s/%s", s.Name, p.Extra, p.Rot*90, rd0.Out, rd.Out))
+					switch {
+					case rd.Out == "text" && rd0.Out == "text":
+						key := fmt.Sprintf("turned-read-differs-from-upright-read:%s:rot%d", s.Name, p.Rot*90)
+						if rd0.Text == j.want {
+							key = fmt.Sprintf("misread:%s:rot%d", s.Name, p.Rot*90) // the hints left the text alone: this is the plain misread
+						}
+						c.Oracle("c09-neg", rd.Text == rd0.Text, key, desc,
+							fmt.Sprintf("same picture, same hints: upright reads %q, turned by %d degrees reads %q", rd0.Text, p.Rot*90, rd.Text))
+					case rd.Out == "text" || strings.HasPrefix(rd.Out, "ERR:"):
+						c.Oracle("c09-neg", true, "", desc, "")
+					default:
+						c.Oracle("c09-neg", false, "not-a-reader-exception:"+s.Name+":"+rd.Out, desc, "outcome "+rd.Out)
+					}
+					if c09Clean(s, p) && rd0.Out == "text" && (p.Rot == 2 || p.TryHarder) {
+						c.Oracle("c09-pos", rd.Out == "text", fmt.Sprintf("turned-not-read-under-extra-hints:%s:rot%d", s.Name, p.Rot*90), desc,
+							fmt.Sprintf("upright picture reads %q under these hints; turned by %d degrees: %s", rd0.Text, p.Rot*90, rd.Out))
+					}
+				}
+				continue
+			}
 			clean := c09Clean(s, p)
 			cl := "dirty"
 			if clean {
